@@ -1,6 +1,7 @@
 /-
   C01 — dictable behaves as a rectangular list of records under any operation history.
-  Property theorems only (helper lemmas: PygProofs/Lemmas/TableLemmas.lean, TableRect.lean, TableRows.lean).
+  Property theorems only (helper lemmas: PygProofs/Lemmas/TableLemmas, TableRect, TableRows, TableCons, TableNodup,
+  SliceLemmas, TableAbs, TableAbs2, TableAbsHeap, TableCall).
 
   The model is the history machine `step : Heap → Op → Heap × Out` of PygModel/Table.lean; `run` folds it
   over an operation list.  Clauses of the property text and the theorems that state them:
@@ -14,12 +15,19 @@
     * operations returning a new table never alter their operands ... `frame_step`
     * a non-fitting assignment is rejected with ValueError and leaves the table rectangular
                                                                       `setitem_reject`, `setitem_reject_step`, `err_unchanged`
+    * "equals what the same sequence yields on a plain list-of-records model" — the simulation theorem
+      `abs_step` / `abs_run` against the reference machine `specStep` of PygModel/TableSpec.lean (every `Op`,
+      all arguments, outcomes incl. error kinds), per-operation lemmas in Lemmas/TableAbs*.lean
+    * derived columns with several callables .......................... `call_order`, `call_circular`
+    * update, tuple projection ........................................ `update_all`, `update_misfit`, `tup_rows`
+    * column order of concatenations (python set) ..................... `RecsEquiv`, `concat_keys_perm`, `concat_any_order`, `equiv_observe`
+    * stretch .......................................................... `concat_assoc`, `mask_col`
 -/
-import PygProofs.Lemmas.TableNodup
-import PygProofs.Lemmas.SliceLemmas
+import PygProofs.Lemmas.TableAbsHeap
+import PygProofs.Lemmas.TableCall
 
 namespace Pyg.Props.C01
-open Pyg Table
+open Pyg Table Abs
 
 /-! ### the history invariant -/
 
@@ -1011,6 +1019,524 @@ theorem abs_len_iter (t : Table) (n : Nat) (hr : t.Rect n) :
   refine ⟨?_, rfl⟩
   rw [len_rect' hr]; simp [abs, rows]
 
+/-! ### the simulation theorem: the history machine refines the list-of-records machine
+
+`specStep` (PygModel/TableSpec.lean) runs every `Op` on a heap of `Recs`, record by record.  `abs_step`: one
+step of the dictable machine, seen through `abs`, is one step of the list-of-records machine — same new
+heap, same outcome (value, alias, `err ValueError/KeyError/IndexError/TypeError`, bad handle) — for EVERY
+operation and all arguments.  The only hypothesis is the history invariant `HeapRect` (`rect_run`); distinct
+column names are not needed.  `abs_run` lifts it to operation lists by induction. -/
+
+theorem absStep_step (s : Heap) (op : Op) (hs : HeapRect s) :
+    absStep (step s op) = specStep (s.map abs) op := by
+  cases op with
+  | new dst data columns kwargs =>
+    simp only [step, specStep]
+    rw [← abs_construct]
+    cases construct data columns kwargs with
+    | none => rfl
+    | some r => exact absStep_bind s dst r
+  | setitem h k v =>
+    simp only [step, specStep, List.getElem?_map]
+    cases ht : s[h]? with
+    | none => rfl
+    | some t =>
+      obtain ⟨n, hn⟩ := hs.get ht
+      simp only [Option.map_some, ← abs_setitem hn]
+      cases t.setitem k v with
+      | error e => rfl
+      | ok t' => simp only [absStep, Except.map, List.map_set]
+  | delitem h k =>
+    simp only [step, specStep, List.getElem?_map]
+    cases ht : s[h]? with
+    | none => rfl
+    | some t =>
+      obtain ⟨n, hn⟩ := hs.get ht
+      simp only [Option.map_some, ← abs_delitem hn]
+      cases t.delitem k with
+      | error e => rfl
+      | ok t' => simp only [absStep, Except.map, List.map_set]
+  | update h kvs =>
+    simp only [step, specStep, List.getElem?_map]
+    cases ht : s[h]? with
+    | none => rfl
+    | some t =>
+      obtain ⟨n, hn⟩ := hs.get ht
+      simp only [Option.map_some, abs_update hn]
+      cases t.update kvs with
+      | mk t' oe => cases oe <;> simp only [absStep, List.map_set]
+  | len h =>
+    simp only [step, specStep, List.getElem?_map]
+    cases ht : s[h]? with
+    | none => rfl
+    | some t =>
+      obtain ⟨n, hn⟩ := hs.get ht
+      simp only [Option.map_some, absStep_query, len_abs hn]
+      rfl
+  | shape h =>
+    simp only [step, specStep, List.getElem?_map]
+    cases ht : s[h]? with
+    | none => rfl
+    | some t =>
+      obtain ⟨n, hn⟩ := hs.get ht
+      simp only [Option.map_some, absStep_query, len_abs hn]
+      simp [Except.map, abs_cols, cols]
+  | row h i =>
+    simp only [step, specStep, List.getElem?_map]
+    cases ht : s[h]? with
+    | none => rfl
+    | some t =>
+      obtain ⟨n, hn⟩ := hs.get ht
+      simp only [Option.map_some, absStep_query, abs_getRow hn]
+  | col h k =>
+    simp only [step, specStep, List.getElem?_map]
+    cases ht : s[h]? with
+    | none => rfl
+    | some t =>
+      obtain ⟨n, hn⟩ := hs.get ht
+      simp only [Option.map_some, absStep_query, abs_getColE hn]
+  | iter h =>
+    simp only [step, specStep, List.getElem?_map]
+    cases ht : s[h]? with
+    | none => rfl
+    | some t => simp only [Option.map_some, absStep_query, abs_iter]
+  | tup h ks =>
+    simp only [step, specStep, List.getElem?_map]
+    cases ht : s[h]? with
+    | none => rfl
+    | some t =>
+      obtain ⟨n, hn⟩ := hs.get ht
+      simp only [Option.map_some, absStep_query, abs_getTuple hn]
+  | apply h f =>
+    simp only [step, specStep, List.getElem?_map]
+    cases ht : s[h]? with
+    | none => rfl
+    | some t => simp only [Option.map_some, absStep_query, abs_applyFn t]
+  | slice dst h a b st =>
+    simp only [step, specStep, List.getElem?_map]
+    cases ht : s[h]? with
+    | none => rfl
+    | some t =>
+      obtain ⟨n, hn⟩ := hs.get ht
+      exact absStep_bind' s dst (abs_getSlice hn a b st)
+  | mask dst h m =>
+    simp only [step, specStep, List.getElem?_map]
+    cases ht : s[h]? with
+    | none => rfl
+    | some t => exact absStep_bind' s dst (abs_getMask m)
+  | take dst h is =>
+    simp only [step, specStep, List.getElem?_map]
+    cases ht : s[h]? with
+    | none => rfl
+    | some t =>
+      obtain ⟨n, hn⟩ := hs.get ht
+      exact absStep_bind' s dst (abs_getTake hn is)
+  | proj dst h ks =>
+    simp only [step, specStep, List.getElem?_map]
+    cases ht : s[h]? with
+    | none => rfl
+    | some t =>
+      obtain ⟨n, hn⟩ := hs.get ht
+      exact absStep_bind' s dst (abs_getProj hn ks)
+  | call dst h consts fns =>
+    simp only [step, specStep, List.getElem?_map]
+    cases ht : s[h]? with
+    | none => rfl
+    | some t =>
+      obtain ⟨n, hn⟩ := hs.get ht
+      exact absStep_bind' s dst (abs_call hn consts fns)
+  | relabel dst h r =>
+    simp only [step, specStep, List.getElem?_map]
+    cases ht : s[h]? with
+    | none => rfl
+    | some t =>
+      obtain ⟨n, hn⟩ := hs.get ht
+      exact absStep_bind' s dst (congrArg Except.ok (abs_relabel_any hn r))
+  | doo dst h f keys =>
+    simp only [step, specStep, List.getElem?_map]
+    cases ht : s[h]? with
+    | none => rfl
+    | some t =>
+      obtain ⟨n, hn⟩ := hs.get ht
+      exact absStep_bind' s dst (abs_doCols hn f keys)
+  | concat dst hs' =>
+    simp only [step, specStep, mapM_getElem?_abs]
+    cases hm : hs'.mapM (fun h => s[h]?) with
+    | none => rfl
+    | some ts =>
+      have hrect : ∀ t ∈ ts, ∃ n, t.Rect n := fun t ht => hs t (mem_of_mapM_getElem? hs' ts hm t ht)
+      match ts, hrect with
+      | [], _ => exact absStep_bind' s dst rfl
+      | [_], _ => rfl
+      | t1 :: t2 :: ts, hrect =>
+        exact absStep_bind' s dst (congrArg Except.ok (abs_concat (t1 :: t2 :: ts) hrect))
+  | addrec dst h r =>
+    simp only [step, specStep, List.getElem?_map]
+    cases ht : s[h]? with
+    | none => rfl
+    | some t =>
+      simp only [Option.map_some, ← abs_construct]
+      cases hc : construct (Data.cols (r.map fun kv => (kv.1, ColVal.one kv.2))) Option.none [] with
+      | none => rfl
+      | some r2 =>
+        cases r2 with
+        | error e => rfl
+        | ok t2 =>
+          have hrect : ∀ x ∈ [t, t2], ∃ n, x.Rect n := by
+            intro x hx
+            simp only [List.mem_cons, List.not_mem_nil, or_false] at hx
+            rcases hx with rfl | rfl
+            · exact hs.get ht
+            · exact construct_rect hc
+          exact absStep_bind' s dst (congrArg Except.ok (abs_concat [t, t2] hrect))
+  | addnone h =>
+    simp only [step, specStep, List.getElem?_map]
+    cases ht : s[h]? <;> rfl
+  | copy dst h =>
+    simp only [step, specStep, List.getElem?_map]
+    cases ht : s[h]? with
+    | none => rfl
+    | some t => exact absStep_bind' s dst rfl
+
+
+/-- **simulation, one step** (DESIGN §14) -/
+theorem abs_step (s : Heap) (op : Op) (hs : HeapRect s) :
+    (step s op).1.map abs = (specStep (s.map abs) op).1 ∧ (step s op).2 = (specStep (s.map abs) op).2 := by
+  have h := absStep_step s op hs
+  exact ⟨congrArg Prod.fst h, congrArg Prod.snd h⟩
+
+/-- **simulation, any history**: the heap after any operation list is, through `abs`, the heap of the
+list-of-records machine after the same list, and the two machines produce the same outcomes line by line -/
+theorem abs_run (ops : List Op) (s : Heap) (hs : HeapRect s) :
+    (run s ops).map abs = specRun (s.map abs) ops ∧ stepTrace s ops = specTrace (s.map abs) ops := by
+  induction ops generalizing s with
+  | nil => exact ⟨rfl, rfl⟩
+  | cons op ops ih =>
+    obtain ⟨h1, h2⟩ := abs_step s op hs
+    obtain ⟨i1, i2⟩ := ih _ (rect_step s op hs)
+    simp only [run, specRun, stepTrace, specTrace]
+    rw [← h1, ← h2]
+    exact ⟨i1, by rw [i2]⟩
+
+/-- from the empty heap there is no hypothesis left -/
+theorem abs_run_empty (ops : List Op) :
+    (run [] ops).map abs = specRun [] ops ∧ stepTrace [] ops = specTrace [] ops :=
+  abs_run ops [] HeapRect.nil
+
+/-! ### derived columns with several callables, `update`, tuple projection -/
+
+/-- `d(**kw)`: the constants are assigned first (`update`; a misfit raises before any callable runs), then
+EVERY callable is evaluated exactly once (`order` is a permutation of the callables), row-wise
+(`setFns` = one `derived_column` after the other), in a dependency order: no callable reads a key that a
+callable evaluated after it defines (`DepOrder`).  Keyword names are distinct (python keyword arguments). -/
+theorem call_order (t t' : Table) (consts : List (String × ColVal)) (fns : List (String × Fn))
+    (hn : (fns.map (·.1)).Nodup) (h : t.call consts fns = .ok t') :
+    ∃ res order, t.updateE consts = .ok res ∧ order.Perm fns ∧ res.setFns order = .ok t' ∧ DepOrder order := by
+  unfold call at h
+  split at h
+  · cases h
+  · rename_i res hres
+    obtain ⟨order, h1, h2, h3⟩ := callLoop_order fns.length res t' fns hn (Nat.le_refl _) h
+    exact ⟨res, order, hres, h1, h2, h3⟩
+
+/-- the dependency loop raises `ValueError` only for a circular definition: a stage with two or more
+pending callables each of which reads a pending key.  (A derived column itself always fits; a callable can
+only fail with TypeError — `setFn_error`.) -/
+theorem call_circular (t res : Table) (n : Nat) (hr : t.Rect n) (consts : List (String × ColVal))
+    (fns : List (String × Fn)) (hres : t.updateE consts = .ok res)
+    (h : t.call consts fns = .error .value) :
+    ∃ pending : List (String × Fn), pending.Sublist fns ∧ pending.length > 1 ∧
+      ∀ kf ∈ pending, ∃ a ∈ kf.2.args, a ∈ pending.map (·.1) := by
+  unfold call at h
+  rw [hres] at h
+  obtain ⟨n', hn'⟩ := updateE_rect hr hres
+  exact callLoop_value_error _ hn' fns h
+
+/-- `d.update(other)` on a table with columns, every value of the table's length or of length 1: the
+result is `dict.update` with the length-1 values repeated; the row count is kept -/
+theorem update_all (t : Table) (n : Nat) (hr : t.Rect n) (hne : t ≠ []) (kvs : List (String × ColVal))
+    (hfit : ∀ kv ∈ kvs, kv.2.value.length = n ∨ kv.2.value.length = 1) :
+    t.update kvs = (t.updateWith (kvs.map fun kv => (kv.1, bcast n kv.2.value)), Option.none) ∧
+    (t.updateWith (kvs.map fun kv => (kv.1, bcast n kv.2.value))).Rect n := by
+  refine ⟨update_fits hr hne kvs hfit, updateWith_rect hr ?_⟩
+  intro kv hkv
+  obtain ⟨kv', hkv', rfl⟩ := List.mem_map.1 hkv
+  exact bcast_length (hfit kv' hkv')
+
+/-- `d.update(other)` whose first non-fitting value is `v`: `ValueError`, the assignments before it stay,
+nothing after it is assigned -/
+theorem update_misfit (t : Table) (n : Nat) (hr : t.Rect n) (hne : t ≠ [])
+    (pre post : List (String × ColVal)) (k : String) (v : ColVal)
+    (hfit : ∀ kv ∈ pre, kv.2.value.length = n ∨ kv.2.value.length = 1)
+    (hbad : v.value.length ≠ n ∧ v.value.length ≠ 1) :
+    t.update (pre ++ (k, v) :: post) =
+      (t.updateWith (pre.map fun kv => (kv.1, bcast n kv.2.value)), some .value) := by
+  obtain ⟨h1, h2⟩ := update_all t n hr hne pre hfit
+  rw [update_append, h1]
+  simp only [update]
+  rw [(setitem_reject _ n h2 (updateWith_ne_nil hne _) k v).2 hbad]
+
+/-- `d[k1, k2, ...]`: `KeyError` unless every key is a column; otherwise one tuple per record holding the
+named fields in the requested order (no tuple at all for an empty key list) -/
+theorem tup_rows (t : Table) (n : Nat) (hr : t.Rect n) (ks : List String) :
+    t.getTuple ks =
+      if ks.all t.cols.contains then
+        .ok (if ks.isEmpty then [] else t.rows.map fun row => ks.map fun k => Recs.lookup t.cols row k)
+      else .error .key :=
+  abs_getTuple hr ks
+
+/-! ### the column order of a concatenation
+
+`dict_concat` takes the keys from a python `set`, so the column order of `concat` / `+` / records
+construction is not determined by the code; model and reference machine use the order of first appearance
+and the correspondence compares tables as dicts.  Any other key order gives the same records up to a
+permutation of the columns: -/
+
+/-- two lists of records that differ only in the order of their columns -/
+def RecsEquiv (a b : Recs) : Prop :=
+  a.cols.Perm b.cols ∧ a.rows.length = b.rows.length ∧
+    ∀ i k, Recs.lookup a.cols (a.rows.getD i []) k = Recs.lookup b.cols (b.rows.getD i []) k
+
+theorem concat_keys_perm (keys keys' : List String) (h : keys'.Perm keys) (rs : List Recs) :
+    RecsEquiv (Recs.concatWith keys' rs) (Recs.concatWith keys rs) ∧
+    Recs.concat rs = Recs.concatWith (dedupKeys (rs.flatMap Recs.cols)) rs := by
+  refine ⟨⟨h, ?_, ?_⟩, rfl⟩
+  · simp [Recs.concatWith, List.length_flatMap]
+  · intro i k
+    have hrows : ∀ ks : List String, (Recs.concatWith ks rs).rows =
+        (rs.flatMap fun r => r.rows.map fun row => (r.cols, row)).map
+          fun p => ks.map fun k => Recs.lookup p.1 p.2 k := by
+      intro ks
+      simp [Recs.concatWith, List.map_flatMap, List.map_map, Function.comp_def]
+    rw [hrows, hrows]
+    simp only [Recs.concatWith, List.getD_eq_getElem?_getD, List.getElem?_map]
+    cases (rs.flatMap fun r => r.rows.map fun row => (r.cols, row))[i]? with
+    | none => simp [Recs.lookup]
+    | some p =>
+      simp only [Option.map_some, Option.getD_some, lookup_map_keys]
+      by_cases hk : k ∈ keys
+      · rw [if_pos hk, if_pos (h.mem_iff.2 hk)]
+      · rw [if_neg hk, if_neg (fun hk' => hk (h.mem_iff.1 hk'))]
+
+/-- whatever order the code's `set` yields for the keys of `concat(t1, t2, ...)`, the records are those of
+the model's result up to the order of the columns -/
+theorem concat_any_order (ts : List Table) (hr : ∀ t ∈ ts, ∃ n, t.Rect n) (keys' : List String)
+    (h : keys'.Perm (Table.concat ts).cols) :
+    RecsEquiv (Recs.concatWith keys' (ts.map abs)) (abs (Table.concat ts)) := by
+  have hcols : (Table.concat ts).cols = dedupKeys ((ts.map abs).flatMap Recs.cols) := by
+    simp only [Table.concat, cols, List.map_map, Function.comp_def, List.flatMap_map, abs, List.map_id']
+    rfl
+  rw [abs_concat ts hr]
+  rw [hcols] at h
+  exact (concat_keys_perm _ keys' h (ts.map abs)).1
+
+/-- tables that differ only in the order of their columns cannot be told apart by `len`, `d[k]` or
+`d[k1, k2, ...]` (a record read as a dict does not depend on the order either: the third clause of
+`RecsEquiv`) -/
+theorem equiv_observe (a b : Recs) (h : RecsEquiv a b) :
+    a.rows.length = b.rows.length ∧ (∀ k, a.getCol k = b.getCol k) ∧ (∀ ks, a.getTuple ks = b.getTuple ks) := by
+  obtain ⟨hp, hl, hc⟩ := h
+  have hcont : ∀ k, a.cols.contains k = b.cols.contains k := by
+    intro k
+    cases hb : b.cols.contains k with
+    | true => exact List.contains_iff_mem.2 (hp.mem_iff.2 (List.contains_iff_mem.1 hb))
+    | false =>
+      cases ha : a.cols.contains k with
+      | false => rfl
+      | true =>
+        have := List.contains_iff_mem.2 (hp.mem_iff.1 (List.contains_iff_mem.1 ha))
+        rw [hb] at this; cases this
+  have hmap : ∀ (F : String → List Cell → Cell) (G : String → List Cell → Cell) (ks : List String),
+      (∀ i k, F k (a.rows.getD i []) = G k (b.rows.getD i [])) →
+      (a.rows.map fun row => ks.map fun k => F k row) = b.rows.map fun row => ks.map fun k => G k row := by
+    intro F G ks hFG
+    apply List.ext_getElem
+    · simp [hl]
+    · intro i h1 h2
+      simp only [List.getElem_map]
+      apply List.map_congr_left
+      intro k _
+      have h1' : i < a.rows.length := by simpa using h1
+      have h2' : i < b.rows.length := by simpa using h2
+      have := hFG i k
+      simpa [List.getD_eq_getElem?_getD, h1', h2'] using this
+  refine ⟨hl, ?_, ?_⟩
+  · intro k
+    unfold Recs.getCol
+    rw [hcont k]
+    split
+    · apply congrArg Except.ok
+      have := hmap (fun k row => Recs.lookup a.cols row k) (fun k row => Recs.lookup b.cols row k) [k]
+        (fun i k => hc i k)
+      have := congrArg (List.map fun r => r.headD Cell.none) this
+      simpa [List.map_map, Function.comp_def] using this
+    · rfl
+  · intro ks
+    unfold Recs.getTuple
+    have : ks.all a.cols.contains = ks.all b.cols.contains := by
+      congr 1
+      funext k
+      exact hcont k
+    rw [this]
+    split
+    · apply congrArg Except.ok
+      split
+      · rfl
+      · exact hmap (fun k row => Recs.lookup a.cols row k) (fun k row => Recs.lookup b.cols row k) ks
+          (fun i k => hc i k)
+    · rfl
+
+/-- every record of every table the list-of-records machine can reach has exactly one cell per column -/
+theorem spec_reachable_aligned (ops : List Op) :
+    ∀ r ∈ specRun [] ops, ∀ row ∈ r.rows, row.length = r.cols.length := by
+  intro r hr row hrow
+  rw [← (abs_run_empty ops).1] at hr
+  obtain ⟨t, _, rfl⟩ := List.mem_map.1 hr
+  simp only [abs, rows, List.mem_map] at hrow
+  obtain ⟨i, _, rfl⟩ := hrow
+  simp [row, abs, cols]
+
+/-! ### stretch: associativity of concatenation, columns of a masked table -/
+
+/-- **concatenation is associative**: `(d1 + d2) + d3` and `d1 + (d2 + d3)` are both `concat(d1, d2, d3)` —
+same columns in the same order, same records -/
+theorem concat_assoc (a b c : Recs) :
+    Recs.concat [Recs.concat [a, b], c] = Recs.concat [a, b, c] ∧
+    Recs.concat [a, Recs.concat [b, c]] = Recs.concat [a, b, c] := by
+  have hdef : ∀ rs : List Recs, Recs.concat rs = ⟨dedupKeys (rs.flatMap Recs.cols),
+      rs.flatMap fun r => r.rows.map fun row => (dedupKeys (rs.flatMap Recs.cols)).map fun k =>
+        Recs.lookup r.cols row k⟩ := fun _ => rfl
+  have hcols2 : ∀ x y : Recs, (Recs.concat [x, y]).cols = dedupKeys (x.cols ++ y.cols) := by
+    intro x y; simp [Recs.concat]
+  have hrows2 : ∀ x y : Recs, (Recs.concat [x, y]).rows =
+      (x.rows.map fun row => (dedupKeys (x.cols ++ y.cols)).map fun k => Recs.lookup x.cols row k) ++
+      (y.rows.map fun row => (dedupKeys (x.cols ++ y.cols)).map fun k => Recs.lookup y.cols row k) := by
+    intro x y; simp [Recs.concat]
+  constructor
+  · have hK : dedupKeys ([Recs.concat [a, b], c].flatMap Recs.cols) = dedupKeys ([a, b, c].flatMap Recs.cols) := by
+      simp only [List.flatMap_cons, List.flatMap_nil, List.append_nil, hcols2]
+      rw [dedupKeys_dedup_left, List.append_assoc]
+    rw [hdef [Recs.concat [a, b], c], hdef [a, b, c], hK]
+    simp only [List.flatMap_cons, List.flatMap_nil, List.append_nil, List.map_append, List.map_map,
+      Function.comp_def, List.append_assoc, Recs.mk.injEq, true_and, hrows2, hcols2]
+    congr 1
+    · apply List.map_congr_left
+      intro row _
+      exact lookup_through _ _ a.cols row (fun k hk => by rw [mem_dedupKeys]; simp [hk])
+    · congr 1
+      apply List.map_congr_left
+      intro row _
+      exact lookup_through _ _ b.cols row (fun k hk => by rw [mem_dedupKeys]; simp [hk])
+  · have hK : dedupKeys ([a, Recs.concat [b, c]].flatMap Recs.cols) = dedupKeys ([a, b, c].flatMap Recs.cols) := by
+      simp only [List.flatMap_cons, List.flatMap_nil, List.append_nil, hcols2]
+      rw [dedupKeys_dedup_right]
+    rw [hdef [a, Recs.concat [b, c]], hdef [a, b, c], hK]
+    simp only [List.flatMap_cons, List.flatMap_nil, List.append_nil, List.map_append, List.map_map,
+      Function.comp_def, Recs.mk.injEq, true_and, hrows2, hcols2]
+    congr 2
+    · apply List.map_congr_left
+      intro row _
+      exact lookup_through _ _ b.cols row (fun k hk => by rw [mem_dedupKeys]; simp [hk])
+    · apply List.map_congr_left
+      intro row _
+      exact lookup_through _ _ c.cols row (fun k hk => by rw [mem_dedupKeys]; simp [hk])
+
+/-- on dictables (through `abs`): `concat(concat(t1, t2), t3)`, `concat(t1, concat(t2, t3))` and
+`concat(t1, t2, t3)` have the same columns and records -/
+theorem concat_assoc_abs (t1 t2 t3 : Table) (h1 : ∃ n, t1.Rect n) (h2 : ∃ n, t2.Rect n) (h3 : ∃ n, t3.Rect n) :
+    abs (Table.concat [Table.concat [t1, t2], t3]) = abs (Table.concat [t1, t2, t3]) ∧
+    abs (Table.concat [t1, Table.concat [t2, t3]]) = abs (Table.concat [t1, t2, t3]) := by
+  have r12 : ∃ n, (Table.concat [t1, t2]).Rect n := ⟨_, concat_rect (by
+    intro t ht; simp at ht; rcases ht with rfl | rfl <;> assumption)⟩
+  have r23 : ∃ n, (Table.concat [t2, t3]).Rect n := ⟨_, concat_rect (by
+    intro t ht; simp at ht; rcases ht with rfl | rfl <;> assumption)⟩
+  have e12 : abs (Table.concat [t1, t2]) = Recs.concat [abs t1, abs t2] := abs_concat _ (by
+    intro t ht; simp at ht; rcases ht with rfl | rfl <;> assumption)
+  have e23 : abs (Table.concat [t2, t3]) = Recs.concat [abs t2, abs t3] := abs_concat _ (by
+    intro t ht; simp at ht; rcases ht with rfl | rfl <;> assumption)
+  have e123 : abs (Table.concat [t1, t2, t3]) = Recs.concat [abs t1, abs t2, abs t3] := abs_concat _ (by
+    intro t ht; simp at ht; rcases ht with rfl | rfl | rfl <;> assumption)
+  constructor
+  · rw [abs_concat _ (by intro t ht; simp at ht; rcases ht with rfl | rfl <;> assumption), e123]
+    simp only [List.map_cons, List.map_nil, e12]
+    exact (concat_assoc _ _ _).1
+  · rw [abs_concat _ (by intro t ht; simp at ht; rcases ht with rfl | rfl <;> assumption), e123]
+    simp only [List.map_cons, List.map_nil, e23]
+    exact (concat_assoc _ _ _).2
+
+/-- `d[mask][c]` is `d[c]` filtered by the mask (a mask with one flag per row) -/
+theorem mask_col (t t' : Table) (n : Nat) (hr : t.Rect n) (hne : t ≠ []) (m : List Bool) (hm : m.length = n)
+    (h : t.getMask m = .ok t') (k : String) :
+    t'.getColE k = (t.getColE k).map fun c => ((c.zip m).filter (·.2)).map (·.1) := by
+  obtain ⟨t'', h1, h2⟩ := abs_mask t n hr hne m hm
+  rw [h] at h1
+  cases h1
+  obtain ⟨n', hn'⟩ := getMask_rect h
+  rw [abs_getColE hn', abs_getColE hr, h2]
+  unfold Recs.getCol Recs.mask
+  simp only
+  split
+  · simp only [Except.map, List.map_map]
+    congr 1
+    rw [List.zip_map_left, List.filter_map, List.map_map]
+    rfl
+  · rfl
+
+/-! ### closed forms on the reference machine -/
+
+/-- on the reference machine: rows + header (every row as long as the header) are exactly those records -/
+theorem spec_new_rows (cs : List String) (rs : List (List Cell)) (hcs : cs.Nodup) (hk : cs ≠ [])
+    (hrs : ∀ r ∈ rs, r.length = cs.length) :
+    Recs.construct (.rows rs) (some cs) [] = some (.ok ⟨cs, rs⟩) := by
+  obtain ⟨h1, _, h3, h4⟩ := new_rows cs rs hcs hk hrs
+  rw [← abs_construct, h1]
+  simp [Except.map, abs, h3, h4]
+
+/-- on the reference machine: a non-empty list of records (dicts) is read as one record each over the keys
+in order of first appearance, a missing key as `None`, a repeated key by its last value; records without
+any key at all are no records -/
+theorem spec_new_records (rs : List (List (String × Cell))) (hne : rs ≠ []) :
+    Recs.construct (.recs rs) Option.none [] =
+      some (.ok (Recs.norm ⟨dedupKeys (rs.flatMap fun r => r.map (·.1)),
+        rs.map fun r => (dedupKeys (rs.flatMap fun r => r.map (·.1))).map fun k =>
+          ((r.reverse.find? (·.1 == k)).map (·.2)).getD .none⟩)) := by
+  obtain ⟨h1, _, h3, h4⟩ := new_records rs hne
+  rw [← abs_construct, h1]
+  simp only [Option.map_some, Except.map]
+  congr 2
+  unfold Recs.norm
+  by_cases hk : (dictConcat rs).cols = []
+  · have hnil : dictConcat rs = [] := by
+      cases hd : dictConcat rs with
+      | nil => rfl
+      | cons c t => rw [hd] at hk; simp [cols] at hk
+    rw [← h3, hk]
+    simp only [List.isEmpty_nil, if_true]
+    rw [hnil]; rfl
+  · have h4' := h4 hk
+    rw [h3] at h4' hk
+    have : (dedupKeys (rs.flatMap fun r => r.map (·.1))).isEmpty = false := by
+      cases hd : dedupKeys (rs.flatMap fun r => r.map (·.1)) with
+      | nil => exact absurd hd hk
+      | cons a as => rfl
+    simp only [this, Bool.false_eq_true, if_false]
+    simp only [abs, h3, h4']
+
+/-- a mask with one flag per record is the plain filter -/
+theorem spec_mask_full (r : Recs) (m : List Bool) (hm : m.length = r.rows.length) :
+    r.getMask m = .ok (r.mask m) := by
+  unfold Recs.getMask zipper2 Recs.mask
+  have hl : lens [r.rows.length, m.length] = .ok r.rows.length := by
+    apply lens_const (by simp)
+    intro l hl
+    simp at hl
+    rcases hl with rfl | rfl
+    · rfl
+    · exact hm
+  rw [hl]
+  simp only
+  rw [bcast_self rfl, bcast_self hm]
+
 /-! ### non-vacuity: the hypotheses are satisfiable on non-trivial values -/
 
 /-- a 3-row, 2-column table; the history below builds it, masks it to nothing, assigns, concatenates -/
@@ -1039,5 +1565,36 @@ example : (run [] [.new 0 .none Option.none [("a", .many [.int 1, .int 2]), ("b"
      [("a", []), ("b", []), ("c", [])],
      [("a", [.int 1, .int 2]), ("b", [.str "x", .str "x"]), ("c", [.none, .none]), ("d", [.int 1, .int 1])]] := by
   decide
+
+/-- the same history on the list-of-records machine: the records of the three tables (`abs_run_empty`) -/
+example : specRun [] [.new 0 .none Option.none [("a", .many [.int 1, .int 2]), ("b", .one (.str "x"))],
+      .mask 1 0 [false, false], .setitem 1 "c" (.many []), .concat 2 [0, 1], .setitem 2 "d" (.many [.int 1])] =
+    [⟨["a", "b"], [[.int 1, .str "x"], [.int 2, .str "x"]]⟩,
+     ⟨["a", "b", "c"], []⟩,
+     ⟨["a", "b", "c", "d"], [[.int 1, .str "x", .none, .int 1], [.int 2, .str "x", .none, .int 1]]⟩] := by
+  decide
+/-- outcomes of both machines on a history with a rejected assignment, a bad row index and a missing key -/
+example : specTrace [abs tbl] [.setitem 0 "c" (.many [.int 1]), .setitem 0 "c" (.many [.int 1, .int 2]),
+      .row 0 3, .col 0 "z", .len 0] = [.unit, .err .value, .err .index, .err .key, .val (natVal 3)] ∧
+    stepTrace [tbl] [.setitem 0 "c" (.many [.int 1]), .setitem 0 "c" (.many [.int 1, .int 2]),
+      .row 0 3, .col 0 "z", .len 0] = [.unit, .err .value, .err .index, .err .key, .val (natVal 3)] :=
+  ⟨rfl, rfl⟩
+/-- two callables, the first reads the key the second defines: `b` is evaluated first, then `c = new b` -/
+example : tbl.call [] [("c", .idcol "b"), ("b", .isnone "a")] =
+    .ok [("a", [.int 1, .none, .int 3]), ("b", [.bool false, .bool true, .bool false]),
+         ("c", [.bool false, .bool true, .bool false])] := by rfl
+example : DepOrder [("b", Fn.isnone "a"), ("c", Fn.idcol "b")] := by
+  unfold DepOrder; simp [Fn.args]
+/-- a circular definition -/
+example : tbl.call [] [("a", .idcol "b"), ("b", .idcol "a")] = .error .value := by rfl
+/-- `update`: the assignment before the misfit stays -/
+example : tbl.update [("c", .one (.int 7)), ("d", .many [.int 1, .int 2]), ("e", .one .none)] =
+    (tbl ++ [("c", [.int 7, .int 7, .int 7])], some .value) := by rfl
+example : tbl.getTuple ["b", "a"] = .ok [[.str "x", .int 1], [.str "y", .none], [.flt 10, .int 3]] := by rfl
+example : tbl.getTuple ["b", "z"] = .error .key := by rfl
+/-- renaming two columns onto one name: first position, last value — on both machines -/
+example : abs (tbl.relabel ⟨Option.none, [("a", "k"), ("b", "k")]⟩) = ⟨["k"], [[.str "x"], [.str "y"], [.flt 10]]⟩ ∧
+    (abs tbl).relabel (Relabel.key ⟨Option.none, [("a", "k"), ("b", "k")]⟩) =
+      ⟨["k"], [[.str "x"], [.str "y"], [.flt 10]]⟩ := by decide
 
 end Pyg.Props.C01
